@@ -70,6 +70,30 @@ pub fn run(args: &[&str]) -> Option<String> {
             }
             Some(v.join(" "))
         }
+        ["vfsids", script] => {
+            // a history of `s<p>` (set_path_content of path number p, content `c<k>` for the k-th operation) and `r<p>`
+            // (remove) on one Vfs: the id each operation returns, then the table path -> (id, content) of the loaded files
+            let mut vfs = api::Vfs::new();
+            let mut out = Vec::new();
+            for (k, op) in script.split(',').filter(|s| !s.is_empty()).enumerate() {
+                let (kind, p) = op.split_at(1);
+                let p: u32 = p.parse().ok()?;
+                let path = format!("/w/f{p}.gleam");
+                match kind {
+                    "s" => out.push(vfs.set_path_content(api::vfs_path(&path), format!("c{k}")).0.to_string()),
+                    "r" => out.push(if api::remove_path(&mut vfs, &path) { "ok".into() } else { "no".into() }),
+                    _ => return None,
+                }
+            }
+            let mut table = Vec::new();
+            for p in 0..16u32 {
+                let path = format!("/w/f{p}.gleam");
+                if let Some(id) = api::file_id_for_path(&vfs, &path) {
+                    table.push(format!("{p}:{id}:{}", vfs.content_for_file(ide::FileId(id))));
+                }
+            }
+            Some(format!("{} # {}", out.join(","), table.join(",")))
+        }
         ["edit", h, a, b, c, d, ins] => {
             let text = unhex(h)?;
             let ins = unhex(ins)?;
